@@ -251,7 +251,7 @@ BackupRetMonitors(r, c) ==
   \* C03: what a backup that stopped (killed, or aborted by an error it returned) recorded is the new
   \* content of EVERY path up to the last one it recorded -- no path below that point is missing.
   \* (Entries skipped with a counted error are another matter: only runs without such errors.)
-  \cup (IF (r.crashed \/ r.res # "ok") /\ r.errors <= 0 /\ ~r.panic /\ b # -1 /\ b \in Bands(fs) /\ HeadOK(fs, b) /\ ~TailFile(fs, b)
+  \cup (IF (r.crashed \/ r.res # "ok") /\ r.errors <= 0 /\ r.mon_errors = 0 /\ ~r.panic /\ b # -1 /\ b \in Bands(fs) /\ HeadOK(fs, b) /\ ~TailFile(fs, b)
             /\ g.mode \in {"clean", "fault"} /\ ~g.damaged /\ \A n \in DOMAIN fs.bands[b].hunks : fs.bands[b].hunks[n].st = "ok"
         THEN LET own == OwnEntries(fs, b)
                  have == {own[i].p : i \in 1..Len(own)}
